@@ -8,6 +8,7 @@ import (
 	"path/filepath"
 	"runtime"
 	"sort"
+	"strconv"
 	"strings"
 	"time"
 
@@ -75,6 +76,9 @@ func harnessOverlay(native bool) (map[string][]byte, error) {
 			ov[filepath.Join(dir, "zz_verif_"+filepath.Base(f))] = b
 		}
 		ov[filepath.Join(dir, "zz_verif_api.go")] = []byte(strings.ReplaceAll(string(tmpl), "PKGNAME", goPkg))
+		if pkg == "interpreter" {
+			ov[filepath.Join(dir, "zz_verif_examples.go")] = []byte(exampleSources())
+		}
 	}
 	return ov, nil
 }
@@ -272,4 +276,27 @@ func firstLine(s string) string {
 		return s[:i]
 	}
 	return s
+}
+
+// exampleSources: the repository's shipped example scripts (those that neither read input
+// nor call the clock) as a Go table, regenerated from the working tree on every run; used by
+// the translator-validation harness that runs them from SSA and natively.
+func exampleSources() string {
+	var b strings.Builder
+	b.WriteString("package interpreter\n\nvar verifExamples = []string{\n")
+	files, _ := filepath.Glob(filepath.Join(gCfg.Repo, "example", "*.bn"))
+	sort.Strings(files)
+	for _, f := range files {
+		src, err := os.ReadFile(f)
+		if err != nil {
+			continue
+		}
+		text := string(src)
+		if strings.Contains(text, "\u0995\u09cd\u09b2\u0995") || strings.Contains(text, "\u0987\u09a8\u09aa\u09c1\u099f") {
+			continue // clock / input
+		}
+		fmt.Fprintf(&b, "\t%s,\n", strconv.QuoteToASCII(text))
+	}
+	b.WriteString("}\n")
+	return b.String()
 }
